@@ -175,6 +175,7 @@ def run(F, res, tier):
     # the value names offered at an expression position are ModuleScope.values: a type import must not bind a constructor there
     from rules import c05 as _c05
     _c05.namespaces(F, res, rule7="X11", rule8="X11")
+    _c05.lowering_visits_every_child(F, res, rule="X13")   # names inside a construct that is never lowered are offered nothing
 
 
 def extra_rules(F, res):
